@@ -147,31 +147,41 @@ enum ES16 : std::int16_t { ESa = -32768, ESb = -1, ESc = 0, ESd = 32767 };
 struct Base1 { long a; virtual ~Base1 () { } };
 struct Base2 { long b; virtual ~Base2 () { } };
 struct Derived : Base1, Base2 { long c; };
+// the same shapes WITHOUT virtual functions (nothing polymorphic about them, the second base is still displaced), and a
+// virtual base of a class without virtual functions (displaced too)
+struct PBase1 { long a; };
+struct PBase2 { long b; };
+struct PDerived : PBase1, PBase2 { long c; };
+struct VBase { long x; };
+struct VDerived : virtual VBase { long y; };
 
-template <typename P> static long off_of (P p, const Derived *arr)
+template <typename P> static long off_of (P p, const void *arr)
 { return p ? static_cast<long> (reinterpret_cast<const char *> (p) - reinterpret_cast<const char *> (arr)) : -1; }
 
 template <typename SP, typename DP, unsigned N>
-static void ptr_ops (const char *sname, const char *dname, Arr<SP> &in, const Derived *arr)
+static void ptr_ops (const char *sname, const char *dname, Arr<SP> &in, const void *arr, size_t objsize = sizeof (Derived))
 {
   typedef gch::small_vector<DP, N> V;
-  struct Out { static void line (const char *op, const char *sn, const char *dn, const Arr<SP> &in, const V &got, size_t from, size_t cnt, const Derived *arr)
+  struct Out { static void line (const char *op, const char *sn, const char *dn, const Arr<SP> &in, const V &got, size_t from, size_t cnt, const void *arr, size_t objsize)
     {
       std::string i = "[", g = "[", e = "[";
       for (size_t k = 0; k < in.size (); ++k) { if (k) { i += ","; e += ","; } i += std::to_string (off_of (in[k], arr)); e += std::to_string (off_of (static_cast<DP> (in[k]), arr)); }
       for (size_t k = 0; k < cnt; ++k) { if (k) g += ","; g += std::to_string (off_of (got[from + k], arr)); }
       std::printf ("{\"t\":\"convptr\",\"op\":\"%s\",\"N\":%u,\"src\":\"%s\",\"dst\":\"%s\",\"objsize\":%zu,\"in\":%s],\"got\":%s],\"exp\":%s],\"cpp\":%ld}\n",
-                   op, N, sn, dn, sizeof (Derived), i.c_str (), g.c_str (), e.c_str (), static_cast<long> (__cplusplus));
+                   op, N, sn, dn, objsize, i.c_str (), g.c_str (), e.c_str (), static_cast<long> (__cplusplus));
     } };
   SP *b = in.data (); SP *e = b + in.size ();
-  { V v (b, e); Out::line ("ctor_ptr", sname, dname, in, v, 0, v.size (), arr); }
-  { Fwd<SP> fb = { b }, fe = { e }; V v (fb, fe); Out::line ("ctor_fwd", sname, dname, in, v, 0, v.size (), arr); }
+  { V v (b, e); Out::line ("ctor_ptr", sname, dname, in, v, 0, v.size (), arr, objsize); }
+  { Fwd<SP> fb = { b }, fe = { e }; V v (fb, fe); Out::line ("ctor_fwd", sname, dname, in, v, 0, v.size (), arr, objsize); }
   { V *p1 = 0, *p2 = 0; svit_ctor<SP, V> (b, e, p1, p2, SvitOK<SP, DP> ());
-    if (p1) { Out::line ("ctor_svit", sname, dname, in, *p1, 0, p1->size (), arr); delete p1; } if (p2) delete p2; }
-  { V v (1, DP ()); v.assign (b, e); Out::line ("assign_ptr", sname, dname, in, v, 0, v.size (), arr); }
-  { V v (2, DP ()); v.insert (v.begin () + 1, b, e); Out::line ("insert_ptr_mid", sname, dname, in, v, 1, v.size () - 2, arr); }
-  { V v (1, DP ()); v.append (b, e); Out::line ("append_ptr", sname, dname, in, v, 1, v.size () - 1, arr); }
-  { V v; for (size_t k = 0; k < in.size (); ++k) v.emplace_back (in[k]); Out::line ("emplace_back", sname, dname, in, v, 0, v.size (), arr); }
+    if (p1) { Out::line ("ctor_svit", sname, dname, in, *p1, 0, p1->size (), arr, objsize); delete p1; } if (p2) delete p2; }
+  { V v (1, DP ()); v.assign (b, e); Out::line ("assign_ptr", sname, dname, in, v, 0, v.size (), arr, objsize); }
+  { V v (2, DP ()); v.insert (v.begin () + 1, b, e); Out::line ("insert_ptr_mid", sname, dname, in, v, 1, v.size () - 2, arr, objsize); }
+  { V v (1, DP ()); v.append (b, e); Out::line ("append_ptr", sname, dname, in, v, 1, v.size () - 1, arr, objsize); }
+  { V v; for (size_t k = 0; k < in.size (); ++k) v.emplace_back (in[k]); Out::line ("emplace_back", sname, dname, in, v, 0, v.size (), arr, objsize); }
+  { V v (2, DP ()); for (size_t k = 0; k < in.size (); ++k) v.emplace (v.begin () + 1 + static_cast<std::ptrdiff_t> (k), in[k]);
+    Out::line ("emplace_mid", sname, dname, in, v, 1, v.size () - 2, arr, objsize); }
+  { V v (3, DP ()); v.reserve (in.size () + 8); v.insert (v.begin () + 1, b, e); Out::line ("insert_ptr_mid_inplace", sname, dname, in, v, 1, v.size () - 3, arr, objsize); }
 }
 
 #define K(T, name, kind) Kind { name, static_cast<int> (std::is_same<T, bool>::value ? 1 : sizeof (T) * 8), std::numeric_limits<T>::is_signed ? 1 : 0, kind }
@@ -247,6 +257,13 @@ int main ()
         ptr_ops<Derived *, const Derived *, 2> ("Derived*", "const Derived*", in, arr);
         ptr_ops<Derived *, void *, 2> ("Derived*", "void*", in, arr); ptr_ops<Derived *, const void *, 2> ("Derived*", "const void*", in, arr);
         ptr_ops<Derived *, Derived *, 2> ("Derived*", "Derived*", in, arr); }
+      static PDerived parr[4];
+      { Arr<PDerived *> in; for (int i = 0; i < 4; ++i) in.push_back (&parr[i]); in.push_back (0);
+        ptr_ops<PDerived *, PBase1 *, 2> ("PDerived*", "PBase1*", in, parr, sizeof (PDerived)); ptr_ops<PDerived *, PBase2 *, 2> ("PDerived*", "PBase2*", in, parr, sizeof (PDerived));
+        ptr_ops<PDerived *, PBase2 *, 0> ("PDerived*", "PBase2*", in, parr, sizeof (PDerived)); ptr_ops<PDerived *, const PBase2 *, 8> ("PDerived*", "const PBase2*", in, parr, sizeof (PDerived)); }
+      static VDerived varr[4];
+      { Arr<VDerived *> in; for (int i = 0; i < 4; ++i) in.push_back (&varr[i]); in.push_back (0);
+        ptr_ops<VDerived *, VBase *, 2> ("VDerived*", "VBase*", in, varr, sizeof (VDerived)); ptr_ops<VDerived *, const VBase *, 0> ("VDerived*", "const VBase*", in, varr, sizeof (VDerived)); }
       { Arr<Base2 *> in; for (int i = 0; i < 4; ++i) in.push_back (static_cast<Base2 *> (&arr[i]));
         ptr_ops<Base2 *, const Base2 *, 2> ("Base2*", "const Base2*", in, arr); ptr_ops<Base2 *, void *, 2> ("Base2*", "void*", in, arr); }
     }
